@@ -788,6 +788,54 @@ def rule_o8(F):
     return r
 
 
+def rule_o9(F):
+    """A compound assignment reads its target before evaluating its right-hand side.  `x op= rhs` is lowered as the assignment
+    `x = x op rhs` (whose binary operator reads and stores the left operand first: O1 / O4) - or, if a path of `compound_assign`
+    lowers the right-hand side itself, something on that path has read the target before.  Evaluated with vf/sx on all paths."""
+    from .. import sx
+    r = RuleResult("C08.O9", "compound assignment: the target is read before the right-hand side is lowered, on every path of compound_assign", floor=1)
+    b = F.body(L + "compound_assign")
+    if b is None or not b.hir:
+        r.missing(L + "compound_assign")
+        return r
+    pname = (b.hir["params"][1].get("name") if len(b.hir["params"]) > 1 else None) or "c"
+    opq = {p for p in F.paths() if p.startswith("mir::lower") and p != b.path and hir.last(p) in
+           ("expr", "assign", "binop", "assign_to_var", "do_assign", "tmp", "emit_assign", "type_of", "convert", "path", "place", "undropped_tmp")}
+    try:
+        paths = sx.Exec(F, opaque=opq).paths(b.hir, {})
+    except (sx.TooManyPaths, sx.Unknown) as e_:
+        r.bad(b.path, "evaluation", relfile(b.file), b.line, "cannot evaluate compound_assign: %s" % e_)
+        return r
+    desugared = direct_ok = 0
+    bad = []
+    for res, evs in paths:
+        if res == ("diverges",):
+            continue
+        evs = [e for e in evs if e[0] == "mcall"]
+        rhs_i = [i for i, e in enumerate(evs) if e[1] in ("expr", "binop") and any(sx.mentions(a, pname) and ".expr" in str(sx.short(a, 200)) and not sx.find_ctors(a, "BinOp") for a in e[3])]
+        whole = [e for e in evs if e[1] == "assign" and any(sx.find_ctors(a, "BinOp") for a in e[3])]
+        if not rhs_i:
+            if whole:
+                c = sx.find_ctors(whole[0][3][-1], "BinOp")[0]
+                left_is_target = len(c) >= 5 and bool(sx.find_ctors(c[2], "Path")) and ".path" in str(sx.short(c[2], 200))
+                if left_is_target and ".expr" in str(sx.short(c[4], 80)):
+                    desugared += 1
+                    continue
+            bad.append("a path neither desugars to `target = target op rhs` nor lowers the right-hand side (%s)" % [e[1] for e in evs][:6])
+            continue
+        first = rhs_i[0]
+        read_before = any(e[1] in ("expr", "path", "place", "assign_to_var", "do_assign") and any(".path" in str(sx.short(a, 200)) for a in e[3]) for e in evs[:first])
+        if read_before:
+            direct_ok += 1
+        else:
+            bad.append("the right-hand side is lowered (%s) before anything has read the target" % evs[first][1])
+    r.inst("compound_assign", {"paths": len(paths), "desugared_paths": desugared, "direct_paths_reading_the_target_first": direct_ok, "problems": sorted(set(bad))[:3]})
+    for pr in sorted(set(bad)):
+        r.bad(b.path, pr[:60], relfile(b.file), b.line,
+              "%s: `x += { x = 10; 5 }` adds to the value the right-hand side left in x (15 instead of 6) - a compound assignment reads its target before evaluating its right-hand side" % pr)
+    return r
+
+
 def rules(ctx):
     F = ctx["F"]
-    return [rule_o1(F), rule_o2(F), rule_o3(F), rule_o4(F), rule_o5(F), rule_o6(F), rule_o7(F), rule_o8(F)]
+    return [rule_o1(F), rule_o2(F), rule_o3(F), rule_o4(F), rule_o5(F), rule_o6(F), rule_o7(F), rule_o8(F), rule_o9(F)]
